@@ -1,6 +1,7 @@
 """C18 (deterministic hashing, collision isolation), C02 (lookups return the current value of the
 same key) and C04 (nothing is lost below capacity): mostly compositions of store / cache rules."""
 from cachelib import *
+import re
 from cachelib import ctor_fields
 import props_store
 import props_life
@@ -46,6 +47,31 @@ def _chain_of(e, param):
     return list(reversed(chain))
 
 
+def _eval_int(e, param, x):
+    """Value of an integer expression over the parameter (casts, masks with constants) for param = x, as a
+    mathematical integer; None when the expression uses anything else."""
+    e = norm(e)
+    if e == param:
+        return x
+    if e[0] == "const" and isinstance(e[1], int) and not isinstance(e[1], bool):
+        return e[1]
+    if e[0] in ("named", "cstr"):
+        m_ = re.search(r"(u8|u16|u32|u64|u128|usize|i8|i16|i32|i64|i128|isize)>?::(MAX|MIN)$", str(e[1]))
+        if m_:
+            w, signed = INT_TYPES[m_.group(1)]
+            return ((1 << (w - 1)) - 1 if signed else (1 << w) - 1) if m_.group(2) == "MAX" else (-(1 << (w - 1)) if signed else 0)
+        return None
+    if e[0] == "cast" and e[1] in INT_TYPES:
+        v = _eval_int(e[2], param, x)
+        return None if v is None else _cast_to(v, e[1])
+    if e[0] == "bin" and e[1] in ("BitAnd", "BitOr", "BitXor"):
+        a, b_ = _eval_int(e[2], param, x), _eval_int(e[3], param, x)
+        if a is None or b_ is None:
+            return None
+        return {"BitAnd": a & b_, "BitOr": a | b_, "BitXor": a ^ b_}[e[1]]
+    return None
+
+
 def transparent_effect(facts, b, depth=0):
     """The casts a write_* method applies to its argument before it lands in `data` (a u64), following a
     delegation to another write_* method; None when the method does something else."""
@@ -88,6 +114,24 @@ def check_transparent(rep, fl, rule="R18.1"):
         eff = transparent_effect(facts, b)
         ok = eff is not None
         bad = None
+        if not ok:
+            # not a plain chain of casts: a store of an expression over the argument (`(i & u128::from(u64::MAX)) as u64`)
+            # is compared with `i as u64` as a function, on the same boundary values
+            ws_ = stmt_nodes(b, lambda s_: has_field(s_["pl"], "data", "TransparentHasher"))
+            if len(ws_) == 1 and must_pass_through(b, [ws_[0][0]]) and not [1 for _bi, t_ in b.calls() if b.callee_of(t_).startswith(TH + "::write_")]:
+                param_ = V(b.local_name.get(2, "arg2"))
+                ex_ = b.rvalue_expr(ws_[0][2]["rv"], True)
+                vals_ = [(x_, _eval_int(ex_, param_, x_)) for x_ in _samples(pty)]
+                if vals_ and all(v_ is not None for _x, v_ in vals_):
+                    ok = True
+                    eff = []
+                    for x_, v_ in vals_:
+                        if _cast_to(v_, "u64") != _cast_to(x_, "u64"):
+                            ok, bad = False, x_
+                            break
+                    rep.check(ok, rule, fl, b, "data = i as u64", "%s stores its argument as `i as u64`" % b.name,
+                              "%s does not store `i as u64`: the stored expression gives another value for i = %s" % (b.name, bad))
+                    continue
         if ok:
             # the casts are pure: compare the chain with `i as u64` on the boundary values of every width
             for x in _samples(pty):
